@@ -298,7 +298,12 @@ def hwPos (segs : List Seg) (hw : Int) : Res (Nat × Nat) :=
     | some s =>
       match s.findEntryIdx hw with
       | none => .err "entry-not-found"
-      | some k => .ok (i, k + 1)
+      | some k =>
+        -- the found entry is the first with offset >= hw; if the HW message itself is gone
+        -- (retention), that entry is above the HW and not committed
+        match s.recs[k]? with
+        | some r => if Gen.Log.hwGoneCheck && r.offset > hw then .ok (i, k) else .ok (i, k + 1)
+        | none => .ok (i, k + 1)
 
 /-- Committed byte-walk: like `drainFrom`, but on the HW segment only up to the HW position, and
 it stops there (the reader would wait for the HW). -/
